@@ -1,13 +1,284 @@
 import PpciVerif.Model.Bitfun
 import PpciVerif.Spec.Bits
 import PpciVerif.Spec.ArmImm
-/-! C39 — stage 0: the model mirrors the pinned source; negation witnesses. -/
+import PpciVerif.Proofs.Bits
+import PpciVerif.Proofs.Bitfun
+import PpciVerif.Proofs.BitfunEnc
+/-!
+# C39 — bit-manipulation helpers compute their mathematical definitions
+
+Property theorems only.  Model: `Model.Bitfun` (hand model of
+`ppci/utils/bitfun.py` after the two `fix:` commits, tied by correspondence).
+Spec: `Spec.Bits` (definitions by bit index / modular arithmetic) and
+`Spec.ArmImm` (ARM rotated 8-bit immediate).
+
+Every theorem is for **all** bit widths (`bits ≥ 1` where the helper needs a sign
+or top bit) and **all** values; `testBit x i` is bit `i` of the infinite
+two's-complement expansion of `x`, so "for every integer" includes the negative
+arguments the wasm runtime passes.
+-/
 namespace Props.C39
-open Model.Bitfun
+open Spec.Bits Model.Bitfun Proofs.Bits Proofs.Bitfun
 
-/-- pinned code: the top bit is dropped -/
-example : reverseBitsPinned 0b11100001 8 = 0b10000110 ∧ Spec.Bits.reverse 8 0b11100001 = 0b10000111 := by decide
+/-! ### rotation -/
+
+/-- `rotl(v, count, bits)` is the left rotation of the `bits`-bit value `v`: it stays in
+    range and result bit `i` is source bit `(i - count) mod bits` — for every width, every
+    in-range value and every integer count (negative and ≥ bits included). -/
+theorem rotl_spec {bits : Nat} (hb : 1 ≤ bits) {v : Int} (hv : fitsU bits v) (count : Int) :
+    ∃ r : Int, Model.Bitfun.rotl v count bits = .ok r ∧ r = (Spec.Bits.rotl bits v count : Int) ∧ fitsU bits r ∧
+      ∀ i, i < bits → testBit r i = testBit v (((i : Int) - count) % (bits : Int)).toNat := by
+  refine ⟨_, rotl_eq hb hv count, rfl, fitsU_rotl _ _ _, fun i hi => ?_⟩
+  rw [testBit_rotl]; simp [hi]
+
+/-- `rotr(v, count, bits)`: result bit `i` is source bit `(i + count) mod bits`. -/
+theorem rotr_spec {bits : Nat} (hb : 1 ≤ bits) {v : Int} (hv : fitsU bits v) (count : Int) :
+    ∃ r : Int, Model.Bitfun.rotr v count bits = .ok r ∧ r = (Spec.Bits.rotr bits v count : Int) ∧ fitsU bits r ∧
+      ∀ i, i < bits → testBit r i = testBit v (((i : Int) + count) % (bits : Int)).toNat := by
+  refine ⟨_, rotr_eq hb hv count, rfl, fitsU_rotr _ _ _, fun i hi => ?_⟩
+  rw [testBit_rotr]; simp [hi]
+
+/-- `rotr` undoes `rotl` (same count, same width). -/
+theorem rotr_rotl_inverse {bits : Nat} (hb : 1 ≤ bits) {v : Int} (hv : fitsU bits v) (count : Int) (r : Int)
+    (h : Model.Bitfun.rotl v count bits = .ok r) : Model.Bitfun.rotr r count bits = .ok v := by
+  rw [rotl_eq hb hv count] at h
+  injection h with h; subst h
+  rw [rotr_eq hb (fitsU_rotl _ _ _), Proofs.Bits.rotr_rotl hb, wrapU_of_fitsU hv]
+
+/-- `rotl` undoes `rotr`. -/
+theorem rotl_rotr_inverse {bits : Nat} (hb : 1 ≤ bits) {v : Int} (hv : fitsU bits v) (count : Int) (r : Int)
+    (h : Model.Bitfun.rotr v count bits = .ok r) : Model.Bitfun.rotl r count bits = .ok v := by
+  rw [rotr_eq hb hv count] at h
+  injection h with h; subst h
+  rw [rotl_eq hb (fitsU_rotr _ _ _), Proofs.Bits.rotl_rotr hb, wrapU_of_fitsU hv]
+
+/-- the rotation count only matters modulo the width -/
+theorem rotl_count_periodic {bits : Nat} (hb : 1 ≤ bits) {v : Int} (hv : fitsU bits v) (count k : Int) :
+    Model.Bitfun.rotl v (count + k * bits) bits = Model.Bitfun.rotl v count bits := by
+  rw [rotl_eq hb hv, rotl_eq hb hv, ← rotl_count_mod, Int.add_mul_emod_self_right, rotl_count_mod]
+
+/-- `rotate_right(v, n)` is the 32-bit right rotation for `0 ≤ n ≤ 32`. -/
+theorem rotate_right_spec {v n : Int} (hv : fitsU 32 v) (h0 : 0 ≤ n) (h1 : n ≤ 32) :
+    rotateRight v n = .ok (Spec.Bits.rotr 32 v n : Int) := rotateRight_eq hv h0 h1
+
+/-- `rotate_left(v, n)` is the 32-bit left rotation for `0 ≤ n < 32` … -/
+theorem rotate_left_spec {v n : Int} (hv : fitsU 32 v) (h0 : 0 ≤ n) (h1 : n < 32) :
+    rotateLeft v n = .ok (Spec.Bits.rotl 32 v n : Int) := rotateLeft_eq hv h0 h1
+
+/-- … and outside that count range it fails its assertion (never a wrong value). -/
+theorem rotate_left_rejects (v n : Int) (h : ¬ (0 ≤ n ∧ n < 32)) : rotateLeft v n = .error .AssertionError := by
+  unfold rotateLeft
+  by_cases h0 : n ≥ 0
+  · rw [if_neg (by omega), if_pos (by omega)]
+  · rw [if_pos h0]
+
+/-- outside `0 ≤ n ≤ 32`, `rotate_right` raises (never a wrong value) -/
+theorem rotate_right_rejects (v n : Int) (h : ¬ (0 ≤ n ∧ n ≤ 32)) : ∃ e, rotateRight v n = .error e := by
+  unfold rotateRight
+  by_cases h0 : n < 0
+  · exact ⟨_, by rw [if_pos h0]⟩
+  · exact ⟨_, by rw [if_neg h0, if_pos (by omega)]⟩
+
+/-! ### bit reversal (after `fix: reverse_bits dropped the most significant input bit`) -/
+
+/-- `reverse_bits(v, bits)` is in range and its bit `i` is bit `bits-1-i` of `v`,
+    for every width and every integer `v` (only the low `bits` bits of `v` matter). -/
+theorem reverse_bits_spec (v : Int) (bits : Nat) :
+    reverseBits v bits = (Spec.Bits.reverse bits v : Int) ∧ fitsU bits (reverseBits v bits) ∧
+      ∀ i, i < bits → testBit (reverseBits v bits) i = testBit v (bits - 1 - i) := by
+  rw [reverseBits_eq]
+  refine ⟨rfl, fitsU_reverse _ _, fun i hi => ?_⟩
+  rw [testBit_reverse]; simp [hi]
+
+/-- reversing twice is the identity on `bits`-bit values -/
+theorem reverse_bits_involutive {bits : Nat} {v : Int} (hv : fitsU bits v) :
+    reverseBits (reverseBits v bits) bits = v := by
+  rw [reverseBits_eq, reverseBits_eq, reverse_reverse, wrapU_of_fitsU hv]
+
+/-! ### two's-complement conversions -/
+
+/-- `to_unsigned(v, bits) = v mod 2^bits` for every integer. -/
+theorem to_unsigned_spec (v : Int) (bits : Nat) :
+    toUnsigned v bits = wrapU bits v ∧ fitsU bits (toUnsigned v bits) ∧ (2 : Int) ^ bits ∣ toUnsigned v bits - v := by
+  rw [toUnsigned_eq]
+  exact ⟨rfl, fitsU_wrapU _ _, (wrapU_eq_iff bits _ _).1 (wrapU_idem bits v)⟩
+
+/-- `to_signed(v, bits)` is the representative of `v mod 2^bits` in `[-2^(bits-1), 2^(bits-1))`,
+    for every integer and every width ≥ 1. -/
+theorem to_signed_spec {bits : Nat} (hb : 1 ≤ bits) (v : Int) :
+    toSigned v bits = wrapS bits v ∧ fitsS bits (toSigned v bits) ∧ (2 : Int) ^ bits ∣ toSigned v bits - v := by
+  rw [toSigned_eq hb]
+  exact ⟨rfl, fitsS_wrapS hb _, wrapS_congr _ _⟩
+
+/-- that representative is unique: the two conditions determine the result -/
+theorem to_signed_unique {bits : Nat} (hb : 1 ≤ bits) (v y : Int) (hy : fitsS bits y)
+    (hc : (2 : Int) ^ bits ∣ y - v) : y = toSigned v bits := by
+  rw [toSigned_eq hb]; exact wrapS_unique hb hy hc
+
+theorem correct_spec {bits : Nat} (hb : 1 ≤ bits) (v : Int) (signed : Bool) :
+    correct v bits signed = if signed then wrapS bits v else wrapU bits v := by
+  cases signed
+  · exact toUnsigned_eq v bits
+  · exact toSigned_eq hb v
+
+/-- signed → unsigned → signed and unsigned → signed → unsigned are identities on their ranges -/
+theorem signed_unsigned_roundtrip {bits : Nat} (hb : 1 ≤ bits) (v : Int) :
+    (fitsS bits v → toSigned (toUnsigned v bits) bits = v) ∧
+    (fitsU bits v → toUnsigned (toSigned v bits) bits = v) := by
+  rw [toUnsigned_eq, toSigned_eq hb, toUnsigned_eq, toSigned_eq hb]
+  exact ⟨wrapS_wrapU_of_fitsS hb, wrapU_wrapS_of_fitsU⟩
+
+/-- `sign_extend(v, bits)` = the signed value of the low `bits` bits, for every integer. -/
+theorem sign_extend_spec {bits : Nat} (hb : 1 ≤ bits) (v : Int) :
+    signExtend v bits = .ok (wrapS bits v) := signExtend_eq hb v
+
+/-! ### leading / trailing zeros, population count -/
+
+/-- `clz(v, bits)` is the number of leading zeros of the `bits`-bit field of `v`
+    (`IsClz`: the top `k` bits are clear and, unless `k = bits`, bit `bits-1-k` is set),
+    for every integer `v` (negative = two's complement). -/
+theorem clz_spec {bits : Nat} (hb : 1 ≤ bits) (v : Int) :
+    ∃ k, Model.Bitfun.clz v bits = .ok k ∧ IsClz bits v k ∧ k = Spec.Bits.clz bits v :=
+  ⟨_, clz_eq hb v, clz_isClz bits v, rfl⟩
+
+/-- `ctz(v, bits)`: the low `k` bits are clear and, unless `k = bits`, bit `k` is set. -/
+theorem ctz_spec (v : Int) (bits : Nat) : IsCtz bits v (Model.Bitfun.ctz v bits) ∧ Model.Bitfun.ctz v bits = Spec.Bits.ctz bits v := by
+  rw [ctz_eq]; exact ⟨ctz_isCtz bits v, rfl⟩
+
+/-- the counts are determined by those conditions -/
+theorem clz_ctz_unique (bits : Nat) (v : Int) (k k' : Nat) :
+    (IsClz bits v k → IsClz bits v k' → k = k') ∧ (IsCtz bits v k → IsCtz bits v k' → k = k') :=
+  ⟨isClz_unique, isCtz_unique⟩
+
+/-- `popcnt(v, bits)` = number of indices `i < bits` with bit `i` of `v` set. -/
+theorem popcnt_spec (v : Int) (bits : Nat) :
+    popcnt v bits = ((List.range bits).filter (testBit v)).length := popcnt_eq v bits
+
+/-! ### ARM rotated immediate (after `fix: encode_imm32 accepted values of more than 32 bits`) -/
+
+/-- Soundness: a returned field is 12 bits wide and denotes `v`: `ROR(e & 0xFF, 2 * (e >> 8)) = v`. -/
+theorem encode_imm32_sound (v e : Int) (h : encodeImm32 v = .ok e) :
+    0 ≤ e ∧ e < 4096 ∧ (Spec.ArmImm.decode e : Int) = v := by
+  unfold encodeImm32 at h
+  by_cases hv : 0 ≤ v ∧ v < 2 ^ 32
+  · rw [if_neg (not_not.2 hv)] at h
+    obtain ⟨j, _, hj, hlt, he, _⟩ := encLoop_ok hv 16 0 e rfl h
+    subst he
+    exact ⟨by omega, by omega, decode_pack hv hlt⟩
+  · rw [if_pos hv] at h; cases h
+
+/-- The encoder succeeds exactly for the representable values (every integer `v`). -/
+theorem encode_imm32_succeeds_iff (v : Int) :
+    (∃ e, encodeImm32 v = .ok e) ↔ Spec.ArmImm.Representable v := by
+  constructor
+  · rintro ⟨e, h⟩
+    unfold encodeImm32 at h
+    by_cases hv : 0 ≤ v ∧ v < 2 ^ 32
+    · rw [if_neg (not_not.2 hv)] at h
+      obtain ⟨j, _, hj, hlt, _, _⟩ := encLoop_ok hv 16 0 e rfl h
+      exact (representable_iff v).2 ⟨hv, j, hj, hlt⟩
+    · rw [if_pos hv] at h; cases h
+  · intro hr
+    obtain ⟨hv, j, hj, hlt⟩ := (representable_iff v).1 hr
+    unfold encodeImm32
+    rw [if_neg (show ¬¬(0 ≤ v ∧ v < 2 ^ 32) from not_not.2 hv)]
+    cases hE : encLoop v 16 0 with
+    | ok e => exact ⟨e, rfl⟩
+    | error err => exact absurd hlt ((encLoop_err hv 16 0 err rfl hE).2 j (Nat.zero_le _) hj)
+
+/-- Otherwise it raises ValueError and nothing else. -/
+theorem encode_imm32_fails_iff (v : Int) :
+    encodeImm32 v = .error .ValueError ↔ ¬ Spec.ArmImm.Representable v := by
+  rw [← encode_imm32_succeeds_iff]
+  constructor
+  · rintro h ⟨e, he⟩; rw [h] at he; cases he
+  · intro h
+    cases hE : encodeImm32 v with
+    | ok e => exact absurd ⟨e, hE⟩ h
+    | error err =>
+      unfold encodeImm32 at hE
+      by_cases hv : 0 ≤ v ∧ v < 2 ^ 32
+      · rw [if_neg (not_not.2 hv)] at hE
+        rw [(encLoop_err hv 16 0 err rfl hE).1]
+      · rw [if_pos hv] at hE; injection hE with hE; rw [hE]
+
+/-- Among the fields denoting `v` the encoder returns the one with the smallest rotation. -/
+theorem encode_imm32_smallest_rotation (v e : Int) (h : encodeImm32 v = .ok e) (rot imm8 : Nat)
+    (hi : imm8 < 256) (_hr : rot < 16) (hd : (Spec.Bits.rotr 32 imm8 (2 * (rot : Int)) : Int) = v) :
+    e / 256 ≤ rot := by
+  unfold encodeImm32 at h
+  by_cases hv : 0 ≤ v ∧ v < 2 ^ 32
+  · rw [if_neg (not_not.2 hv)] at h
+    obtain ⟨j, _, hj, hlt, he, hmin⟩ := encLoop_ok hv 16 0 e rfl h
+    subst he
+    have e2 : ((j : Int) * 256 + (Spec.Bits.rotl 32 v (2 * (j : Int)) : Int)) / 256 = (j : Int) := by omega
+    rw [e2]
+    by_cases hle : j ≤ rot
+    · exact Int.ofNat_le.2 hle
+    · exfalso
+      apply hmin rot (Nat.zero_le _) (by omega)
+      subst hd
+      have := rotl_rotr (n := 32) (by decide) (imm8 : Int) (2 * (rot : Int))
+      rw [wrapU_of_fitsU ⟨Int.natCast_nonneg _, by omega⟩] at this
+      have h' : Spec.Bits.rotl 32 (↑(Spec.Bits.rotr 32 (↑imm8) (2 * ↑rot))) (2 * (rot : Int)) = imm8 :=
+        Int.ofNat_inj.1 this
+      omega
+  · rw [if_pos hv] at h; cases h
+
+/-- the executable test the harness uses as oracle decides `Representable` -/
+theorem representableB_correct (v : Int) :
+    Spec.ArmImm.representableB v = true ↔ Spec.ArmImm.Representable v := representableB_iff v
+
+/-! ### the remaining integer helpers of bitfun.py -/
+
+/-- `align(v, m)` is the least multiple of `m` that is `≥ v` (`m ≥ 1`). -/
+theorem align_spec (v : Int) {m : Nat} (hm : 1 ≤ m) :
+    ∃ r, align v m = .ok r ∧ (m : Int) ∣ r ∧ v ≤ r ∧ r < v + m := by
+  refine ⟨_, align_eq v hm, ?_, ?_, ?_⟩
+  · apply Int.dvd_of_emod_eq_zero
+    rw [Int.add_emod, Int.emod_emod, ← Int.add_emod]
+    simp
+  · have := Int.emod_nonneg (-v) (show (m : Int) ≠ 0 by omega); omega
+  · have := Int.emod_lt_of_pos (-v) (show (0 : Int) < m by omega); omega
+
+/-- `wrap_negative(v, bits)` accepts exactly the union of the signed and the unsigned
+    `bits`-bit ranges and returns the `bits`-bit pattern `v mod 2^bits`; otherwise ValueError. -/
+theorem wrap_negative_spec {bits : Nat} (hb : 1 ≤ bits) (v : Int) :
+    ((fitsS bits v ∨ fitsU bits v) → wrapNegative v bits = .ok (wrapU bits v)) ∧
+    (¬ (fitsS bits v ∨ fitsU bits v) → wrapNegative v bits = .error .ValueError) :=
+  ⟨wrapNegative_ok hb, wrapNegative_err hb⟩
+
+/-- `inrange(v, bits)` decides membership of the signed `bits`-bit range. -/
+theorem inrange_spec {bits : Nat} (hb : 1 ≤ bits) (v : Int) :
+    inrange v bits = .ok (decide (fitsS bits v)) := inrange_eq hb v
+
+/-- `value_to_bytes_big_endian(v, size)` = the `size` low bytes of `v`, most significant
+    first; they denote `v mod 2^(8·size)`. -/
+theorem value_to_bytes_big_endian_spec (v : Int) (size : Nat) :
+    valueToBytesBigEndian v size = toBytesBE size v := valueToBytesBigEndian_eq v size
+
+/-- `value_to_bits(v, bits)` lists bits `0 … bits-1` of `v`. -/
+theorem value_to_bits_spec (v : Int) (bits : Nat) :
+    valueToBits v bits = (List.range bits).map (testBit v) := valueToBits_eq v bits
+
+/-! ### non-vacuity, concrete instances, and the recorded negation witnesses -/
+
+-- the docstring example of reverse_bits, on the fixed code and on the specification
+example : reverseBits 0b11100001 8 = 0b10000111 ∧ Spec.Bits.reverse 8 0b11100001 = 0b10000111 := by decide
+-- the code at the pinned commit dropped the top bit (defect, fixed):
+example : reverseBitsPinned 0b11100001 8 = 0b10000110 := by decide
+example : reverseBitsPinned 0b11100001 8 ≠ (Spec.Bits.reverse 8 0b11100001 : Int) := by decide
+-- the code at the pinned commit accepted a 33-bit value as the immediate 1 (defect, fixed):
 example : encodeImm32Pinned (2 ^ 32 + 1) = .ok 1 ∧ Spec.ArmImm.representableB (2 ^ 32 + 1) = false := by decide
+example : encodeImm32 (2 ^ 32 + 1) = .error .ValueError := by decide
+-- hypotheses are satisfiable by non-trivial inputs
+example : fitsU 8 0x81 ∧ Model.Bitfun.rotl 0x81 (-3) 8 = .ok 0x30 ∧ Model.Bitfun.rotr 0x30 (-3) 8 = .ok 0x81 := by decide
+example : fitsU 32 0x80000001 ∧ rotateLeft 0x80000001 4 = .ok 0x18 ∧ rotateRight 0x18 4 = .ok 0x80000001 := by decide
+example : toSigned 0xFF 8 = -1 ∧ toUnsigned (-1) 8 = 0xFF ∧ signExtend 0x17F 8 = .ok 127 := by decide
+example : Model.Bitfun.clz (-1) 32 = .ok 0 ∧ Model.Bitfun.clz 1 32 = .ok 31 ∧ Model.Bitfun.ctz (-8) 32 = 3 ∧ popcnt (-1) 64 = 64 := by decide
+example : encodeImm32 0xFF000000 = .ok 0x4FF ∧ Spec.ArmImm.decode 0x4FF = 0xFF000000 := by decide
+example : encodeImm32 0x101 = .error .ValueError ∧ Spec.ArmImm.representableB 0x101 = false := by decide
+example : align 13 8 = .ok 16 ∧ wrapNegative (-1) 8 = .ok 255 ∧ inrange 128 8 = .ok false := by decide
+example : valueToBytesBigEndian 0x1234 4 = [0, 0, 0x12, 0x34] := by decide
 
-theorem stage0 : reverseBits 0 0 = 0 := by decide
 end Props.C39
